@@ -47,3 +47,7 @@ reg("C14", "exploration",
     "Metamorphic check: for accepted C01 texts with sections, 1..4 override specifiers (by name / by type / mixed case, depths 0..3, single, multi and wildcard keys, absent top-level keys, missing sections and keys, convertible and unconvertible values, '$' and '=' in values) are applied both through loadConfigFile(overrides=...) and as the hand edit the statement describes; outcomes must be equal (digest-equal tree or both rejected); unresolvable paths must be rejected; unconvertible values must surface as DataConversionError; malformed specifiers must be refused by addOption with ConfigurationSyntaxError.",
     "The hand edit is zcv's own text surgery (first matching child section in file order; lines of the same normalised key dropped; '$' doubled). U15 components and values with surrounding blanks are not generated.",
     "random generation + metamorphic relation (override == text edit)")
+reg("C07", "exploration",
+    "Robustness fuzzing with a class oracle: C01 texts under 1..4 character/token/line mutations (every grammar metacharacter inserted), mutated override specifier lists, include graphs over three real files (self, mutual, missing, directory includes; good and bad %import) and the validator command on those files; every outcome must be a return or a ZConfig.ConfigurationError (a datatype's own exception passes through unchanged); the validator must return 0/1 consistently with direct loads and print exactly one message per rejected file. Failures are bucketed by (exception type, innermost ZConfig function).",
+    "Exotic URL syntax in %include (U12) is outside the quantifier and not generated. Datatypes of generated schemas reject with ValueError.",
+    "mutation fuzzing of texts, override lists and include graphs + exception-class oracle with root-cause bucketing")
